@@ -701,6 +701,9 @@ def oracle(c):
             content = SingleParsedArgumentInfo(arg).get_content_nodelist()
         except Exception:
             return None
+        own = _content_items(arg, True)
+        if len(own) != len(content.nodelist) or any(a is not b for a, b in zip(own, content.nodelist)):
+            return ('argument-content-view-differs-from-documented', {'argument': treedump.dump(arg)[:200]})
         exp = _keyval_oracle(d, None, content, w)
         return _keyval_check(d, r, exp, w.s)
     if fn == 'aschars':
@@ -729,8 +732,32 @@ def oracle(c):
         from pylatexenc.latexnodes import nodes as N
         if not isinstance(r[1], N.LatexNodeList):
             return ('argnl-type', {'observed': repr(type(r[1]))})
+        exp = _content_items(r[2], d['unwrap'])
+        got = list(r[1].nodelist)
+        if len(exp) != len(got) or any(a is not b for a, b in zip(exp, got)):
+            return ('argument-content-view-differs-from-documented', {
+                'argument': treedump.dump(r[2])[:200], 'unwrap_double_group': d['unwrap'],
+                'expected': [treedump.dump(n)[:80] for n in exp], 'observed': [treedump.dump(n)[:80] for n in got]})
         return None
     return None
+
+
+def _content_items(arg, unwrap):
+    """the documented content view of an argument, item objects: absent -> [None]; a node list -> its items; a group ->
+    its contents, or - with unwrap_double_group - the contents of its ONLY item when that is a group with another
+    opening delimiter; any other node -> that node"""
+    from pylatexenc.latexnodes import nodes as N
+    if arg is None:
+        return [None]
+    if isinstance(arg, N.LatexNodeList):
+        return list(arg.nodelist)
+    if treedump.kind(arg) == 'G':
+        items = list(arg.nodelist.nodelist)
+        if unwrap and len(items) == 1 and items[0] is not None and treedump.kind(items[0]) == 'G' \
+           and items[0].delimiters[0] != arg.delimiters[0]:
+            return list(items[0].nodelist.nodelist)
+        return items
+    return [arg]
 
 
 # ----------------------------------------------------------------------------
